@@ -63,7 +63,11 @@ pub fn check_step(pre: &Pre, e: Ev, rep: &StepReport, sim: &Sim) -> Vec<Viol> {
     let mut out = vec![];
     let cfg = &sim.cfg;
     if let Some(p) = &sim.panicked {
-        out.push(v("C03", "panic", format!("panic inside the pool: {p}")));
+        // whatever property is being explored: after a panic in a pool task the histories that
+        // follow are not the library's behaviour any more
+        for prop in ["C02", "C03", "C04", "C05", "C06", "C14", "C15"] {
+            out.push(v(prop, "panic", format!("panic inside the pool: {p}")));
+        }
     }
     world::with(|w| {
         // ---- hand-offs
